@@ -286,6 +286,15 @@ def check_case(case, acc):
         acc.violation("design-exists", exc_sig(e), case, f"{f!r} raised {type(e).__name__}: {e}")
         return
     verdict = decide(f, case, df, X)
+    if verdict is None:  # the data-frame view is the caller's: overwriting it leaves the design matrix as it was
+        try:
+            view = dm.common.as_dataframe()
+            view.iloc[:, :] = 0
+            v0 = decide(f, case, df, np.asarray(dm.common.design_matrix, dtype=float))
+            if v0 not in (None, "undecided"):
+                verdict = (v0[0], v0[1], "after the caller zeroed the frame it got from as_dataframe(): " + v0[2])
+        except Exception as e:
+            verdict = ("design-exists", exc_sig(e), f"as_dataframe() / overwriting it raised {type(e).__name__}: {e}")
     if verdict is None:  # the matrix the design gives for its own frame as new data is held to the same clauses
         acc.calls += 1
         try:
